@@ -145,6 +145,14 @@ func (rl *Shell) init() {
 	// Some accept-* commands must fetch a specific
 	// line outright, or keep the accepted one.
 	history.Init(rl.History)
+
+	// The line kept or fetched for this call comes with the cursor at
+	// its end: in Vi command mode, the cursor goes on its last character.
+	switch rl.Keymap.Main() {
+	case keymap.ViCommand, keymap.ViMove, keymap.Vi:
+		rl.cursor.CheckCommand()
+	}
+
 	rl.History.Save()
 
 	// Reset/initialize user interface components.
